@@ -65,6 +65,22 @@ CHECKS = {
                 technique='deterministic simulation: the real service providers on a real AE (plus their sub-associations on the simulated listener table) against scripted users; reference command reader on every response',
                 text='verification_scp, storage_scp (file-backed), qr_find_scp, qr_move_scp (with a real sub-association to a scripted destination), StorageCommitment.n_action (+ the N-EVENT-REPORT it sends on a second association, success-only/failure-only/mixed), StorageCommitment.n_event_report and the C-STORE responses of qr_get_scu: for message ids {0,1,255,256,32767,32768,65535,+seeded}, several context ids, seeded UIDs and handler outcomes (success, warning, failure, EventHandlingError where documented) every response is on the request\'s context, of type request|0x8000, repeats message id, SOP class and instance, carries the handler\'s (or the documented failure) status, and every request is answered within bounded virtual time.',
                 note='data sets built with pydicom; EventHandlingError injected only where a failure status is documented'),
+    'C15': dict(cat='exploration', ref='6/C15',
+                technique='deterministic simulation with fault injection: two or more real application entities (client and server, every handler and provider thread) on the simulated transport and file system under seeded schedules; byte-level end-to-end oracle and an append-only directory model; disk-error, RST and stall faults in a relaxed configuration',
+                text='Seeded data sets (nested sequences, odd-length values, sizes up to hundreds of fragments, incl. exact multiples of the fragment payload) in three transfer syntaxes, asymmetric maxima, sent from a Dataset or a Part-10 file to file-backed storage_scp, to StorageAE directory storage or to an in-memory SCP, 1..3 concurrent associations with 1..3 stores each, also of the SAME SOP instance UID: the handler receives exactly the sent bytes tagged with the sent class/instance/syntax (file meta header checked by an own reader), the sender gets the handler\'s status (0xC000 for EventHandlingError), every acknowledged store has its own intact file and no existing file is ever reopened for truncation.',
+                note='pydicom trusted to build data sets; under injected ENOSPC/EIO/RST a store may fail, an acknowledged one must still be right'),
+    'C16': dict(cat='exploration', ref='6/C16',
+                technique='deterministic simulation: real find provider and user (and the c_find wrapper) with all their threads under seeded schedules incl. user-thread-ahead bias and stalls; produced-sequence == received-sequence oracle',
+                text='Match sequences of length 0..8 with seeded data sets (incl. exact multiples of the fragment payload) and any mix of FF00/FF01, three transfer syntaxes, maxima down to 40, instant or delayed handler, patient/study root, worklist and c_find variants, final statuses success (real SCP) and failure/cancel/warning (scripted SCP): the user receives exactly the produced (data set, status) pairs in order plus one final non-pending response and then stops; the query reaches the handler unchanged.',
+                note='data sets compared by re-encoding with pydicom; stalls below library timeouts'),
+    'C19': dict(cat='exploration', ref='6/C19',
+                technique='deterministic simulation: real C-GET user against a scripted provider, and a three-node C-MOVE (scripted user, real provider, real destination AE over a second simulated association) under seeded schedules and stalls; exactly-once/order/counter oracle on the wire and at the destination',
+                text='0..6 sub-operations with success/warning/failure outcomes: the C-GET user answers every C-STORE request once, on its context, with its message id, instance and the handler\'s status, yields each instance once in order (in memory or file-backed) and stops at the final response whatever non-pending status concludes it; the C-MOVE provider stores every supplied instance at the designated destination exactly once and in order, its k-th pending response reports k performed and n-k remaining with true failed/warning counts, and exactly one final response concludes the operation, also for n = 0.',
+                note='"performed" accepted as the completed counter or completed+failed+warning; one transfer syntax per C-GET association'),
+    'C20': dict(cat='exploration', ref='6/C20',
+                technique='deterministic simulation with fault injection: 2..8 concurrent client associations (own or shared ClientAE) against one server AE, all threads under seeded uniform / round-robin / starvation schedules with line-level pre-emption (sys.settrace) inside the shared-state functions; per-client outcome == outcome alone',
+                text='Each client has its own transfer syntax, maximum length, SOP-class subset and order (so context ids mean different things in different associations), operation mix (echo, store in-memory or file-backed, find, c_find wrapper) and data; a seeded subset aborts, raises or is reset in mid-conversation. Every undisturbed client gets exactly its own results and statuses, its requests are served with its own negotiated context (class, syntax, file meta), nothing reaches a handler that nobody sent or twice, message ids from _new_msg_id are unique within a thread, user exceptions are preserved.',
+                note='reference outcome computed from what each client sent; pre-emption at source-line granularity of the listed functions'),
 }
 
 
